@@ -9,9 +9,12 @@ NOTE = ("Trusted: Coq 8.16.1 kernel, gen/translate.py, extraction (ExtrOcamlBasi
         "the regenerated Gen layer plus a differential correspondence that samples the implementation. ")
 CLAIMED = {
     "C01": ("Reference loop semantics of all operation families as executable Gallina index plans (Spec/LoopSem.v) with theorems on the "
-            "position arithmetic; every generated well-formed call is evaluated by the extracted spec and compared with einx on numpy, "
-            "numpy.numpylike, numpy.einsum (OperationNotSupportedError is the only other accepted outcome)",
-            "proof of spec lemmas + value correspondence against the extracted Coq reference semantics", "DESIGN.md 3/C01"),
+            "position arithmetic; Model/Lower.v models the lowering of rearrangements with nested flattened axes (reshape - transpose - "
+            "reshape as a term of Model/Opt.v) and Props/C01.v proves that it puts every element where the loop notation says, for all "
+            "expressions and sizes; the graph einx traces for such calls is compared with the model's term by the extracted, proved-sound "
+            "equivalence checker; every generated well-formed call of every family is evaluated by the extracted spec and compared with "
+            "einx on numpy, numpy.numpylike, numpy.einsum (OperationNotSupportedError is the only other accepted outcome)",
+            "proof of spec lemmas + verified lowering model for the rearrangement core + value correspondence against the extracted Coq reference semantics", "DESIGN.md 3/C01"),
     "C08": ("Equivariance theorems on the reference semantics (regrouping for any nesting depth; renaming, permutation) plus metamorphic "
             "relations replayed on the implementation (rename, permute-with-tensor, regroup, id inverse, id composition)",
             "Coq theorems on the spec + metamorphic correspondence", "DESIGN.md 3/C08"),
